@@ -34,7 +34,7 @@ func init() {
 			"S3 (start-up loaders, bound 1, thorough 2): pairs of the real readNativeCode bodies from the table state that exists when the start-up goroutines are spawned; " +
 			"S4 (main script and handlers, bound 1, thorough 2): one evaluation assigning variables in a shared scope while 1-2 others call a handler function defined in that scope from enclosed scopes (what the HTTP module does after serve(background: true)); " +
 			"the tables are restored to a snapshot before every execution; oracle: no happens-before-unordered conflicting accesses on symHashTable/strTable nor on any package-level variable that a function other than init assigns, nor on any field of an object-package struct that some statement assigns after construction (every read/write of such a field is recorded per object; at present Env.Store, PanErr.StackTrace, PanFunc.Env, PanObj.Keys/Pairs/PrivateKeys/zero; a new lazily written field is picked up automatically), SymHash2Str returns what the thread interned, Items() never panics, no deadlock, same final tables and results in every schedule; " +
-			"states = schedules executed, transitions = scheduling steps; non-trivial = schedule containing a cross-thread conflicting access pair; distinct = distinct (scenario, choice vector); round 7: S2 also has two programs that catch errors raised by built-in code (exhausted built-in iterators asked again, failing built-ins, `_`).",
+			"states = schedules executed, transitions = scheduling steps; non-trivial = schedule containing a cross-thread conflicting access pair; distinct = distinct (scenario, choice vector); round 7: S2 also has two programs that catch errors raised by built-in code (exhausted built-in iterators asked again, failing built-ins, `_`).; round 8: The sync shim reports a lock value copied after its first use; S4 also runs pairs of handlers that only read shared values while expanding them into calls and literals or instantiating a shared iterator literal.",
 		Assumptions: []string{
 			"memory model: a data-race-free Go program is sequentially consistent; races are what is detected",
 			"scheduling points are lock acquisitions and unprotected table accesses; code between two points is atomic under the cooperative scheduler",
